@@ -35,10 +35,10 @@ impl FlowControl {
         loop {
             // We didn't have space available; set up a notification
             // so we can wait for it and check again.
-            let notified = self.notifier.notified();
             if self.has_available_space() {
                 return;
             }
+            let notified = self.notifier.notified();
             notified.await;
         }
     }
